@@ -1,6 +1,6 @@
 (* C11 — depth-limited decoding is transparent, monotone and bounded by the nesting. *)
 Require Import Scale.Bytes Scale.Eres Scale.Prog Scale.ProgFacts Scale.ProgMore Scale.Chunks Scale.Monitors Scale.CompactImpl
-  Scale.CompactSpec Scale.CompactProofs Scale.CompactTheorems Scale.Utf8 Scale.Codec Scale.CodecEnc Scale.CodecDec Scale.CodecRt Scale.CodecMore.
+  Scale.CompactSpec Scale.CompactProofs Scale.CompactTheorems Scale.Utf8 Scale.Codec Scale.CodecEnc Scale.CodecDec Scale.CodecRt Scale.CodecMore Scale.TraceEq Scale.Depth.
 
 (* for EVERY decoder program (hence every type), input and limit: the limited decode returns
    what the unlimited decode returns iff the nesting of descend/ascend in its trace is at
@@ -38,7 +38,33 @@ Example C11_nonvacuous :
   run (depthmon 1) (dec t) true bs 0 = RErr 2.
 Proof. repeat split; vm_compute; reflexivity. Qed.
 
+(* value side: the nesting of the trace of decoding an ENCODING is the nesting depth of the encoded
+   value (ddepth: one level per Box/Rc/Arc and per non-bulk sequence/list/set/map/heap, none for
+   options, tuples, arrays, variants, strings and sequences of fixed-width primitives) *)
+Theorem C11_trace_depth_is_value_depth : forall t v bs known rest,
+  nobits t = true -> wf_ty t = true -> wf t v = true -> enc_spec t v = EOk bs ->
+  max_depth 0 (snd (runt (dec t) known (bs ++ rest))) = ddepth t v.
+Proof. exact trace_depth_is_value_depth. Qed.
+
+(* hence, for every well-formed value: decoding its encoding with limit L yields the value when
+   L >= its nesting depth and an error when it is deeper *)
+Theorem C11_limit_on_encodings : forall t v bs known rest L,
+  nobits t = true -> wf_ty t = true -> wf t v = true -> enc_spec t v = EOk bs ->
+  if ddepth t v <=? L
+  then exists d, run (depthmon L) (dec t) known (bs ++ rest) 0 = ROk (canon t v) rest d
+  else exists d, run (depthmon L) (dec t) known (bs ++ rest) 0 = RErr d.
+Proof. exact depth_limit_on_encodings. Qed.
+
+Example C11_value_nonvacuous :
+  let t := TColl CVec 24 (TBox 8 (TOption (TColl CList 1 (TPrim 1)))) in
+  let v := VSeq [VNone; VSome (VSeq [VN 1; VN 2])] in
+  nobits t = true /\ wf_ty t = true /\ wf t v = true /\
+  enc_spec t v = EOk [x08; x00; x01; x08; x01; x02] /\ ddepth t v = 3.
+Proof. repeat split; vm_compute; reflexivity. Qed.
+
 Print Assumptions C11_exact.
 Print Assumptions C11_transparent.
 Print Assumptions C11_error_preserved.
 Print Assumptions C11_monotone.
+Print Assumptions C11_trace_depth_is_value_depth.
+Print Assumptions C11_limit_on_encodings.
